@@ -16,6 +16,26 @@ Definition fmt_res {A} (f : A -> bytes) (r : res A) : bytes :=
   | OutOfFuel => bs "FUEL"
   end.
 
+Fixpoint starts_with (p s : bytes) : bool :=
+  match p, s with
+  | [], _ => true
+  | x :: p', y :: s' => (x =? y) && starts_with p' s'
+  | _ :: _, [] => false
+  end.
+(* split a text at every occurrence of `sep` (non-empty) *)
+Fixpoint split_on_aux (fuel : nat) (sep cur s : bytes) : list bytes :=
+  match fuel with
+  | O => [rev cur ++ s]
+  | S f =>
+    match s with
+    | [] => [rev cur]
+    | c :: r => if starts_with sep s then rev cur :: split_on_aux f sep [] (skipn (List.length sep) s)
+                else split_on_aux f sep (c :: cur) r
+    end
+  end.
+Definition split_on (sep s : bytes) : list bytes := split_on_aux (S (List.length s)) sep [] s.
+Definition words (s : bytes) : list bytes := split_on sp s.
+
 (* N -> lower-case hex text (for integer forms) *)
 Definition hexdigit (d : N) : N := if d <? 10 then 48 + d else 87 + d.
 Fixpoint hex_aux (fuel : nat) (x : N) (acc : bytes) : bytes :=
@@ -199,6 +219,67 @@ Definition spec_dir_ok (likely : bool) (a impl : bytes) : bool :=
   | _ => true
   end.
 
+(* ---- C18: the compiled statics against the CLDR data, row by row (independent of tables.rs) ---- *)
+Fixpoint unhex_aux (s : bytes) (acc : N) : option N :=
+  match s with
+  | [] => Some acc
+  | c :: r =>
+    if is_digit c then unhex_aux r (16 * acc + (c - 48))
+    else if in_range 97 102 c then unhex_aux r (16 * acc + (c - 87))
+    else None
+  end.
+Definition unhex (s : bytes) : option N := match s with [] => None | _ => unhex_aux s 0 end.
+(* the CLDR entries that belong to each table, as the generator classifies them *)
+Definition dict_class (kv : bytes * bytes) : bytes :=
+  match langid_from_bytes (fst kv) with
+  | Ok x =>
+    match li_lang x, li_script x, li_region x with
+    | _, None, None => bs "LANG_ONLY"
+    | Some _, None, Some _ => bs "LANG_REGION"
+    | Some _, Some _, None => bs "LANG_SCRIPT"
+    | None, Some _, Some _ => bs "SCRIPT_REGION"
+    | None, Some _, None => bs "SCRIPT_ONLY"
+    | None, None, Some _ => bs "REGION_ONLY"
+    | _, _, _ => bs "?"
+    end
+  | _ => bs "?"
+  end.
+Definition count_class (name : bytes) : nat := List.length (filter (fun kv => beqb (dict_class kv) name) the_dict).
+Fixpoint nodup_count (l : list bytes) : nat :=
+  match l with [] => O | x :: r => if memb x r then nodup_count r else S (nodup_count r) end.
+Definition spec_table_len (name : bytes) : bytes :=
+  if beqb name (bs "SCRIPTS_LTR") then nat_hex (nodup_count (scripts_with LTR the_lay))
+  else if beqb name (bs "SCRIPTS_RTL") then nat_hex (nodup_count (scripts_with RTL the_lay))
+  else if beqb name (bs "SCRIPTS_TTB") then nat_hex (nodup_count (scripts_with TTB the_lay))
+  else if beqb name (bs "LANGS_RTL") then nat_hex (nodup_count (langs_with RTL the_lay))
+  else nat_hex (count_class name).
+Definition row_fields (impl : bytes) : list (option N) :=
+  map (fun w => if beqb w dash then None else unhex w) (words impl).
+Definition spec_table_row_ok (name impl : bytes) : bool :=
+  if beqb impl (bs "NOROW") then true
+  else
+    let txt8 (o : option N) := match o with Some x => from_raw 8 x | None => [] end in
+    let txt4 (o : option N) := match o with Some x => from_raw 4 x | None => [] end in
+    let val3 (a b c : option N) := join [txt8 a; txt4 b; txt4 c] in
+    let look (k : bytes) (v : bytes) := match dlookup k the_dict with Some v' => beqb v v' | None => false end in
+    match row_fields impl with
+    | [k; a; b; c] =>
+      if beqb name (bs "LANG_ONLY") then look (txt8 k) (val3 a b c)
+      else if beqb name (bs "SCRIPT_ONLY") || beqb name (bs "REGION_ONLY") then look (join [und; txt4 k]) (val3 a b c)
+      else false
+    | [k1; k2; a; b; c] =>
+      if beqb name (bs "LANG_REGION") || beqb name (bs "LANG_SCRIPT") then look (join [txt8 k1; txt4 k2]) (val3 a b c)
+      else if beqb name (bs "SCRIPT_REGION") then look (join [und; txt4 k1; txt4 k2]) (val3 a b c)
+      else false
+    | [k] =>
+      if beqb name (bs "SCRIPTS_LTR") then memb (txt4 k) (scripts_with LTR the_lay)
+      else if beqb name (bs "SCRIPTS_RTL") then memb (txt4 k) (scripts_with RTL the_lay)
+      else if beqb name (bs "SCRIPTS_TTB") then memb (txt4 k) (scripts_with TTB the_lay)
+      else if beqb name (bs "LANGS_RTL") then memb (txt8 k) (langs_with RTL the_lay)
+      else false
+    | _ => false
+    end.
+
 Definition oracle_spec_likely (op : bytes) (args : list bytes) (impl : bytes) : option bool :=
   let l := opt_arg (arg_n 0 args) in
   let s0 := opt_arg (arg_n 1 args) in
@@ -208,6 +289,8 @@ Definition oracle_spec_likely (op : bytes) (args : list bytes) (impl : bytes) : 
   else if beqb op (bs "direction_likely") then Some (spec_dir_ok true (arg1 args) impl)
   else if beqb op (bs "direction_plain") then Some (spec_dir_ok false (arg1 args) impl)
   else if beqb op (bs "cldr_version") then Some (beqb impl (bs CldrLikely.cldr_json_version))
+  else if beqb op (bs "table_len") then Some (beqb impl (spec_table_len (arg_n 0 args)))
+  else if beqb op (bs "table_row") then Some (spec_table_row_ok (arg_n 0 args) impl)
   else None.
 
 (* ================================================================== language identifiers *)
@@ -283,6 +366,16 @@ Definition oracle_model_langid (op : bytes) (args : list bytes) : option bytes :
     Some (match langid_from_bytes (arg_n 0 args) with
           | Ok x => fmt_bool (beqb (li_to_string x) (arg_n 1 args))
           | _ => bs "BADARG" end)
+  else if beqb op (bs "li_routes") then
+    Some (match langid_from_bytes a with
+          | Ok x =>
+            match li_into_parts x with (l, s0, r, vs) =>
+              let r2 := li_from_parts l s0 r vs in
+              let r3 := li_set_variants (mkLangId l s0 r None) vs in
+              let r5 := li_set_variants (mkLangId l s0 r None) (rev vs ++ firstn 1 (rev vs)) in
+              if li_eqb x r2 && li_eqb x r3 && li_eqb x r5 then bs "ALLEQ" else bs "DIFF"
+            end
+          | _ => bs "BADARG" end)
   else None.
 
 (* --- spec side --- *)
@@ -334,6 +427,8 @@ Definition oracle_spec_langid (op : bytes) (args : list bytes) (impl : bytes) : 
     Some (match spec_langid (split (arg_n 0 args)) with
           | Some x => beqb impl (fmt_bool (beqb (li_to_string x) (arg_n 1 args)))
           | None => true end)
+  else if beqb op (bs "li_routes") then
+    Some (match spec_langid (split a) with Some _ => beqb impl (bs "ALLEQ") | None => beqb impl (bs "BADARG") end)
   else None.
 
 (* ================================================================== locales / extensions *)
@@ -696,25 +791,6 @@ Definition oracle_model (op : bytes) (args : list bytes) : bytes :=
 
 (* ---- per-property view of the specification -------------------------------------------------
    The same operation can serve several properties; each property judges only what IT states. *)
-Fixpoint starts_with (p s : bytes) : bool :=
-  match p, s with
-  | [], _ => true
-  | x :: p', y :: s' => (x =? y) && starts_with p' s'
-  | _ :: _, [] => false
-  end.
-(* split a text at every occurrence of `sep` (non-empty) *)
-Fixpoint split_on_aux (fuel : nat) (sep cur s : bytes) : list bytes :=
-  match fuel with
-  | O => [rev cur ++ s]
-  | S f =>
-    match s with
-    | [] => [rev cur]
-    | c :: r => if starts_with sep s then rev cur :: split_on_aux f sep [] (skipn (List.length sep) s)
-                else split_on_aux f sep (c :: cur) r
-    end
-  end.
-Definition split_on (sep s : bytes) : list bytes := split_on_aux (S (List.length s)) sep [] s.
-Definition words (s : bytes) : list bytes := split_on sp s.
 (* a step of a history transcript: "<out> <fmt_locale ... to_string> <same|DIFF|REPARSE-ERR>" *)
 Definition step_tostring (st : bytes) : bytes := match rev (words st) with _ :: t :: _ => t | _ => [] end.
 Definition step_reparse (st : bytes) : bytes := match rev (words st) with t :: _ => t | _ => [] end.
